@@ -44,7 +44,12 @@ AFail == \E n \in Nodes : \E b \in req[n].bs : ClientFail(n, b) /\ ~conf.idem /\
 AReenqueue == \E n \in Nodes : \E b \in req[n].bs : Reenqueue(n, b)
 ARelease == \E n \in Nodes : Release(n)
 AMdRefresh == md # ldr /\ Free(MdUpdate(ldr))
-ALeaderMoves == \E p \in Parts, n \in Nodes : ldr[p] # n /\ Fault(LeaderMoves(p, n))
+\* Environment assumption for acks=0 (named deviation, DESIGN.md 9.3): a broker that becomes leader of p does not still
+\* hold an unprocessed fire-and-forget request for p from before it lost that leadership.  Without acknowledgements the
+\* client cannot order a batch parked in a deposed leader's socket against a later batch sent to the new leader; two
+\* leader elections while one request sits unread are the only way TLC finds to reorder first occurrences with acks=0.
+StaleFor(p, n) == \E i \in 1..Len(wire0[n]) : wire0[n][i].p = p
+ALeaderMoves == \E p \in Parts, n \in Nodes : ldr[p] # n /\ ~StaleFor(p, n) /\ Fault(LeaderMoves(p, n))
 ALeaderUnknown == \E p \in Parts : md[p] # NoLeader /\ Fault(MdUpdate([md EXCEPT ![p] = NoLeader]))
 
 Next == \/ ASend \/ ADrain \/ AExpire \/ ABrokerPart \/ ABrokerPart0 \/ ALose0 \/ ABrokerError \/ AConnLost \/ AReply
